@@ -175,6 +175,8 @@ pub fn gen_rw_run(check: &str, seed: u64, tier: Tier) -> Run {
         run.set("naming", 1 + f.below(NAMING_KINDS as usize - 1) as i64);
     }
     run.set("oracle_seed", (f.next() >> 1) as i64);
+    // unconditional rules built by the crate's own Rewrite::new (own stream: other draws unchanged)
+    run.set("crate_rules", Rng::stream(seed, "crate-rules").chance(1, 3) as i64);
     run
 }
 
@@ -191,6 +193,8 @@ pub fn effective_budget(run: &Run) -> usize {
 }
 
 pub fn new_la_egraph(run: &Run) -> EGraph<LA, SimAn> {
+    // (central place of every rw-based execution) rules through the crate's own Rewrite::new?
+    crate::rules::VIA_CRATE.with(|c| c.set(run.get("crate_rules") != 0));
     let an = SimAn { p: run.get("p").clamp(2, 11) as u32, modify: run.get("modify") != 0 };
     if run.get("subst_method") != 0 {
         EGraph::with_subst_method::<ExtractionSubst>(an)
@@ -1101,6 +1105,13 @@ impl Check for StopCheck {
         run.set("modify", 0);
         // resumed runner: after the first report the caller clears the public `stop_reason` field,
         // possibly inserts a further term and / or passes other rules, and calls `run` again
+        // scale scenario (own stream): thousands of matches of one rule in one call, see exec_scale
+        let mut sr = Rng::stream(seed, "scale");
+        if sr.chance(1, 1500) {
+            run.set("scale_n", 4200 + sr.below(2500) as i64);
+            run.set("scale_driver", sr.below(3) as i64);
+            run.set("crate_rules", 1);
+        }
         let mut rr = Rng::stream(seed, "rerun");
         if rr.chance(1, 4) {
             run.set("rerun", 1 + rr.below(4) as i64);
@@ -1121,6 +1132,9 @@ impl Check for StopCheck {
         }
     }
     fn exec(&self, run: &Run) -> Outcome {
+        if run.get("scale_n") > 0 {
+            return exec_scale(run);
+        }
         if run.get("driver").rem_euclid(4) == 3 {
             return exec_symmetry_growth(run);
         }
@@ -1277,6 +1291,7 @@ impl Check for StopCheck {
                 }
                 changed_any = fingerprint(&mut s) != fp0;
                 if matches!(rep.stop_reason, StopReason::Saturated) {
+                    crate::rules::VIA_CRATE.with(|c| c.set(false));
                     let rules2 = mk_rules(&mut s.nm, Rc::new(RefCell::new(0)));
                     let before = fingerprint(&mut s);
                     if catch_op(|| apply_rewrites(&mut s.eg, &rules2)).is_err() {
@@ -1402,7 +1417,9 @@ impl Check for StopCheck {
                 }
                 changed_any = fingerprint(&mut s) != fp0;
                 if matches!(rep.stop_reason, StopReason::Saturated) {
+                    crate::rules::VIA_CRATE.with(|c| c.set(false));
                     let rules2 = mk_rules_shift(&mut s.nm, Rc::new(RefCell::new(0)), shift);
+                    crate::rules::VIA_CRATE.with(|c| c.set(run.get("crate_rules") != 0));
                     let before = fingerprint(&mut s);
                     if catch_op(|| apply_rewrites(&mut s.eg, &rules2)).is_err() {
                         out.discarded = Some("panic".into());
@@ -1441,4 +1458,136 @@ impl Check for StopCheck {
         out.nontrivial = out.discarded.is_none() && changed_any && !reason_txt.is_empty();
         out
     }
+}
+
+
+/// C15 at scale: a balanced sum of several thousand distinct constants and the commutativity rule,
+/// i.e. thousands of matches of one rule in one call (every other scenario stays below a few hundred).
+/// The rule is built by the crate's `Rewrite::new` (or by the simulator, per `crate_rules`). When the
+/// driver reports saturation, the oracle does not ask the matcher: for every e-node `add(x, y)` of every
+/// class, `add(y, x)` must be represented in the same class.
+fn exec_scale(run: &Run) -> Outcome {
+    let mut out = Outcome::default();
+    seam::apply(&run.knobs());
+    seam::clock_set(1_000_000_000);
+    let n = run.get("scale_n").clamp(2, 20_000) as usize;
+    let mut s: Sess<LA, SimAn> = Sess::new(new_la_egraph(run), run.get("naming") as u32);
+    fn build(lo: usize, hi: usize) -> Tm {
+        if hi - lo == 1 {
+            return Tm::pay("cst", lo as u32);
+        }
+        let mid = (lo + hi) / 2;
+        Tm::node("add", vec![], vec![(vec![], build(lo, mid)), (vec![], build(mid, hi))])
+    }
+    let t = build(0, n);
+    let re = to_re::<LA>(&t, &mut s.nm);
+    let root = match catch_op(|| s.eg.add_expr(re)) {
+        Ok(r) => r,
+        Err(_) => {
+            out.discarded = Some("panic".into());
+            return out;
+        }
+    };
+    let pool = rule_pool(run.get("p").clamp(2, 11) as u32);
+    let comm = pool.iter().find(|r| r.name == "add-comm").unwrap();
+    let rules: Vec<Rewrite<LA, SimAn>> = vec![make_rewrite::<SimAn>(comm, &mut s.nm, None, None)];
+    let v = |clause: &str, detail: String| viol("C15", clause, detail, 0);
+    let mut claimed_saturated = false;
+    match run.get("scale_driver").rem_euclid(3) {
+        0 => {
+            let eg = std::mem::replace(&mut s.eg, new_la_egraph(run));
+            let mut runner: Runner<LA, SimAn, (), String> = Runner::new(SimAn { p: 3, modify: false })
+                .with_egraph(eg)
+                .with_iter_limit(6)
+                .with_node_limit(10_000_000)
+                .with_time_limit(std::time::Duration::from_secs(1_000_000));
+            let rep = catch_op(|| runner.run(&rules));
+            s.eg = std::mem::replace(&mut runner.egraph, new_la_egraph(run));
+            match rep {
+                Ok(rep) => {
+                    claimed_saturated = matches!(rep.stop_reason, StopReason::Saturated);
+                    if rep.egraph_nodes != s.eg.total_number_of_nodes() {
+                        out.violations.push(v("report_node_count", format!("report says {} nodes, e-graph has {}", rep.egraph_nodes, s.eg.total_number_of_nodes())));
+                        return out;
+                    }
+                }
+                Err(_) => {
+                    out.discarded = Some("panic".into());
+                    return out;
+                }
+            }
+        }
+        1 => {
+            let mut eg = std::mem::replace(&mut s.eg, new_la_egraph(run));
+            let rep = catch_op(|| run_eqsat(&mut eg, rules, 6, 1_000_000, |_| Ok::<(), String>(())));
+            s.eg = eg;
+            match rep {
+                Ok(rep) => claimed_saturated = matches!(rep.stop_reason, StopReason::Saturated),
+                Err(_) => {
+                    out.discarded = Some("panic".into());
+                    return out;
+                }
+            }
+        }
+        _ => {
+            for _ in 0..4 {
+                match catch_op(|| apply_rewrites(&mut s.eg, &rules)) {
+                    Ok(false) => {
+                        claimed_saturated = true;
+                        break;
+                    }
+                    Ok(true) => {}
+                    Err(_) => {
+                        out.discarded = Some("panic".into());
+                        return out;
+                    }
+                }
+            }
+        }
+    }
+    out.ops_executed = 1;
+    out.bump("scale_runs");
+    if claimed_saturated {
+        // independent of the matcher: every add(x, y) has its mirror image in the same class
+        let r = catch_op(|| -> Option<Violation> {
+            let mut adds = 0u64;
+            for id in s.eg.ids() {
+                let ident = s.eg.mk_identity_applied_id(id);
+                for nd in s.eg.enodes(id) {
+                    if let LA::Add(a, b) = &nd {
+                        adds += 1;
+                        let mirror = LA::Add(b.clone(), a.clone());
+                        match s.eg.lookup(&mirror) {
+                            None => return Some(v("saturated_is_fixpoint", format!("no change / Saturated was reported with {n} summands, but {mirror:?} is not represented although {nd:?} is (the commutativity rule has an unapplied match)"))),
+                            Some(h) => {
+                                if !s.eg.eq(&h, &ident) {
+                                    return Some(v("saturated_is_fixpoint", format!("no change / Saturated was reported with {n} summands, but {mirror:?} and {nd:?} are in different classes")));
+                                }
+                            }
+                        }
+                    }
+                }
+            }
+            if adds < (n as u64 - 1) {
+                return Some(v("saturated_is_fixpoint", format!("only {adds} add e-nodes for {n} summands")));
+            }
+            None
+        });
+        match r {
+            Ok(Some(vi)) => {
+                out.violations.push(vi);
+                return out;
+            }
+            Ok(None) => out.bump("scale_saturation_checked"),
+            Err(_) => {
+                out.discarded = Some("panic_in_query".into());
+                return out;
+            }
+        }
+    }
+    let _ = root;
+    super::matching::finish_counters(&mut out, run);
+    out.log_hash = crate::rng::hash_str(&format!("scale/{claimed_saturated}/{}", s.eg.total_number_of_nodes()));
+    out.nontrivial = claimed_saturated;
+    out
 }
